@@ -68,8 +68,9 @@ impl RegistryPackageResolver {
         &self,
         keys: &IndexMap<BorrowedPackageKey<'a>, SourceSpan>,
     ) -> Result<IndexMap<BorrowedPackageKey<'a>, Vec<u8>>, Error> {
-        // parses into `PackageName` and maps back to `SourceSpan`
-        let package_names_with_source_span = keys
+        // parses into `PackageName`, one request per key: several keys may
+        // reference the same package (e.g. at different versions)
+        let requests = keys
             .iter()
             .map(|(key, span)| {
                 Ok((
@@ -79,10 +80,20 @@ impl RegistryPackageResolver {
                             span: *span,
                         }
                     })?,
-                    (key.version.cloned(), *span),
+                    key.version.cloned(),
+                    *span,
                 ))
             })
-            .collect::<Result<IndexMap<PackageName, (Option<Version>, SourceSpan)>, Error>>()?;
+            .collect::<Result<Vec<(PackageName, Option<Version>, SourceSpan)>, Error>>()?;
+
+        // the distinct package names, mapped back to the first `SourceSpan` referencing them
+        let mut package_names_with_source_span: IndexMap<&PackageName, SourceSpan> =
+            IndexMap::new();
+        for (package_name, _, span) in &requests {
+            package_names_with_source_span
+                .entry(package_name)
+                .or_insert(*span);
+        }
 
         // fetch required package logs and return error if any not found
         if let Some(bar) = self.bar.as_ref() {
@@ -91,14 +102,14 @@ impl RegistryPackageResolver {
 
         match self
             .client
-            .fetch_packages(package_names_with_source_span.keys())
+            .fetch_packages(package_names_with_source_span.keys().copied())
             .await
         {
             Ok(_) => {}
             Err(ClientError::PackageDoesNotExist { name, .. }) => {
                 return Err(Error::PackageDoesNotExist {
                     name: name.to_string(),
-                    span: package_names_with_source_span.get(&name).unwrap().1,
+                    span: *package_names_with_source_span.get(&name).unwrap(),
                 });
             }
             Err(err) => {
@@ -112,10 +123,9 @@ impl RegistryPackageResolver {
             bar.println("Downloading", "package content from the registry");
         }
 
+        // one download task per requested key, tagged with the position of the key
         let mut tasks = FuturesUnordered::new();
-        for (index, (package_name, (version, span))) in
-            package_names_with_source_span.into_iter().enumerate()
-        {
+        for (index, (package_name, version, span)) in requests.into_iter().enumerate() {
             let client = self.client.clone();
             tasks.push(tokio::spawn(async move {
                 Ok((
